@@ -436,26 +436,25 @@ def mode_setters(F):
     ai = F.one_fn(name="add_instr", self_adt="InstrumentationFlag")
     r.analysed.append(ai["path"])
     n = 0
-    for mt in [x for x in walk(ai["body"]) if x.get("k") == "Match"]:
-        for arm in mt["arms"]:
-            ms = _mode_variants_in(arm["pat"], IM)
-            for m in ms & {"Before", "After", "Alternate"}:
-                n += 1
-                # the instruction parameter must be consumed (pushed / stored) on every normal path through the arm
-                val_hid = ai["params"][-1]["pat"].get("hid")
-                for pm in ai["params"]:
-                    if "Operator" in (pm.get("ty") or "") and not (pm.get("ty") or "").startswith("&"):
-                        val_hid = pm["pat"].get("hid")
+    # decided by cases on the current mode (shape-independent): with the mode set to Before / After / Alternate, every
+    # normal path through add_instr consumes (pushes / stores) the instruction it was given
+    val_hid = ai["params"][-1]["pat"].get("hid")
+    for pm in ai["params"]:
+        if "Operator" in (pm.get("ty") or "") and not (pm.get("ty") or "").startswith("&"):
+            val_hid = pm["pat"].get("hid")
 
-                def clf(x, val_hid=val_hid):
-                    if x.get("k") == "Path" and x.get("res", {}).get("hid") == val_hid:
-                        return "USE"
-                    return None
-                ps_ = normal_paths(paths(arm["body"], clf))
-                ok = bool(ps_) and all("USE" in ev for ev, _ in ps_)
-                r.ob(ok, {"add_instr arm": m, "files_unconditionally": ok})
-                if not ok:
-                    r.violate("%s | %s conditional" % (ai["path"], m), F.loc(ai, arm), "add_instr files %s-mode code only under a condition: an accepted injection is silently dropped for some instructions" % m)
+    def clf(x, val_hid=val_hid):
+        if x.get("k") == "Path" and x.get("res", {}).get("hid") == val_hid:
+            return "USE"
+        return None
+    for m in ("Before", "After", "Alternate"):
+        n += 1
+        sel_, inl_ = mode_case_callbacks(F, IM, m)
+        ps_ = normal_paths(paths(ai["body"], clf, select_arms=sel_, inline_calls=inl_))
+        ok = bool(ps_) and all("USE" in ev for ev, _ in ps_)
+        r.ob(ok, {"add_instr in mode": m, "files_unconditionally": ok})
+        if not ok:
+            r.violate("%s | %s conditional" % (ai["path"], m), F.loc(ai), "add_instr files %s-mode code only under a condition: an accepted injection is silently dropped for some instructions" % m)
     r.count("plain_mode_arms", n)
     return r
 
